@@ -137,7 +137,9 @@ def run(tier, seed, replay=None):
     rep.rule = ("random circuits over {Ket, Bra, Bits(0), H, S, T, X, Y, Z, CX, CZ, Controlled(X|Y|Z|H|S), "
                 "SWAP, Swap(bit,bit), mixed swaps, Rx, Rz, CRz, Measure (destructive / not / override_bits), "
                 "Discard (qubits and bits), scalars (pure and mixed), classical gates (0/1 matrices of "
-                "arities 0-2 -> 1-2) and Bits effects}, 0-4 wires at every depth, 1-8 layers, preparations / "
+                "arities 0-2 -> 1-2) and Bits effects}, 0-4 wires at every depth, 1-8 layers (8% start with three "
+                "prepared qubits, one Measure(n >= 2) box and a bit swap / overriding Measure that tells its bits "
+                "apart), preparations / "
                 "post-selections / swaps at arbitrary depths, ~6% boxes outside the exportable set; "
                 "non-trivial = export succeeds with at least one preparation or measurement not at the "
                 "right end of its register list, or a swap, or a non-empty post-processing; plus random "
@@ -288,6 +290,16 @@ WITNESSES = [
     ("", [(("ket", (0, 1)), 0), (("discard", "q"), 0), (("ket", (0,)), 1), (("measure", 2, 1, 0), 0)]),
     ("", [(("ket", (1, 1, 0)), 0), (("bra", (1,)), 0), (("ket", (0,)), 2), (("gate", "CX"), 0),
           (("measure", 3, 1, 0), 0)]),
+    # one Measure(n) box, then a consumer of the order of its n bit registers (seeded C13-r2m1):
+    # H @ Rx(5/16) @ X >> CX @ Id(1) >> Measure(3) >> Swap(bit, bit) @ Id(bit)
+    ("qqq", [(("gate", "H"), 0), (("rot", "Rx", 5), 1), (("gate", "X"), 2), (("gate", "CX"), 0),
+             (("measure", 3, 1, 0), 0), (("swap", "b", "b"), 0)]),
+    # Ket(1, 0, 0) >> Measure(3) >> Id(bit) @ Swap(bit, bit)
+    ("", [(("ket", (1, 0, 0)), 0), (("measure", 3, 1, 0), 0), (("swap", "b", "b"), 1)]),
+    # Ket(1, 0, 1) >> Measure(2) @ Id(1) >> Id(bit) @ Swap(bit, qubit) >> Id(bit) @ Measure(1, override_bits=True)
+    ("", [(("ket", (1, 0, 1)), 0), (("measure", 2, 1, 0), 0), (("swap", "b", "q"), 1), (("measure", 1, 1, 1), 1)]),
+    # Ket(0, 1, 1) >> Id(1) @ Measure(2) >> Measure() @ Id(bit @ bit) >> Swap(bit, bit) @ Id(bit)
+    ("", [(("ket", (0, 1, 1)), 0), (("measure", 2, 1, 0), 1), (("measure", 1, 1, 0), 0), (("swap", "b", "b"), 0)]),
     # two post-selected bits with adjacent tket indices
     ("", [(("ket", (1, 0, 1)), 0), (("bra", (1, 0)), 0), (("measure", 1, 1, 0), 0)]),
     ("", [(("ket", (1, 0, 1)), 0), (("bra", (1, 0)), 1), (("gate", "H"), 0), (("measure", 1, 1, 0), 0)]),
@@ -383,7 +395,7 @@ def _export_loop(rep, budget, Circuit, n_w, specs, toks, answers, spec_answers, 
         # ---- import of the export: must mean what the export means
         if idx >= budget["roundtrip"]:
             continue
-        if t.n_qubits + len(t.bits) > (8 if idx < n_w else budget["max_units"]):
+        if t.n_qubits + len(t.bits) > (7 if idx < n_w else budget["max_units"]):   # 8 units: 6 s a piece
             rep.count("roundtrip_skipped_large")     # from_tk keeps every unit as a wire: 4^q * 2^b entries
             continue
         try:
